@@ -6,6 +6,7 @@ import (
 	"encoding/json"
 	"fmt"
 	"math/rand/v2"
+	"os"
 	"sort"
 
 	rm "github.com/openfga/openfga/internal/verifsim/refmodel"
@@ -1313,6 +1314,147 @@ func (g *G) DeepRecursive() (*rm.Model, []rm.Tuple, []Request) {
 			// the deepest folders have the longest parent chains
 			reqs = append(reqs, Request{Kind: "check", Obj: fmt.Sprintf("folder:f%d", n-1-g.Intn(3)), Rel: "can_view", User: u})
 		}
+	}
+	return m, tuples, reqs
+}
+
+// Forced reports whether VSIM_FORCE_SHAPE names this directed shape (a debugging aid for aiming a
+// batch of runs at one shape; unset in every registered check).
+func Forced(shape string) bool { return os.Getenv("VSIM_FORCE_SHAPE") == shape }
+
+// ShortCircuit is a directed shape: a union whose one branch answers true at once while a sibling
+// branch is a sub-problem of its own that still has several rows to read (a tuple-to-userset over
+// several parents, a userset with several members). The slow sibling is abandoned in mid-flight; what
+// it leaves behind (cache entries, iterators, goroutines) must not be taken for an answer. Requests
+// ask for the whole first and then for the abandoned sub-problems themselves, twice.
+func (g *G) ShortCircuit() (*rm.Model, []rm.Tuple, []Request) {
+	this := &rm.Rewrite{Kind: rm.This}
+	usr := []rm.Restriction{{Type: "user"}}
+	folder := &rm.TypeDef{Name: "folder", Relations: []*rm.Relation{{Name: "viewer", Rewrite: this, Restrictions: usr}}}
+	if g.Chance(0.4) {
+		folder.Relations[0].Restrictions = []rm.Restriction{{Type: "user"}, {Type: "group", Relation: "member"}}
+	}
+	group := &rm.TypeDef{Name: "group", Relations: []*rm.Relation{{Name: "member", Rewrite: this, Restrictions: usr}}}
+	doc := &rm.TypeDef{Name: "doc"}
+	doc.Relations = append(doc.Relations,
+		&rm.Relation{Name: "parent", Rewrite: this, Restrictions: []rm.Restriction{{Type: "folder"}}},
+		&rm.Relation{Name: "admin", Rewrite: this, Restrictions: usr})
+	// the slow sub-problem: a bare tuple-to-userset, or one beside a direct assignment
+	v := &rm.Rewrite{Kind: rm.TTU, Tupleset: "parent", Relation: "viewer"}
+	if g.Chance(0.3) {
+		doc.Relations = append(doc.Relations, &rm.Relation{Name: "viewer", Rewrite: &rm.Rewrite{Kind: rm.Union, Children: []*rm.Rewrite{this, v}}, Restrictions: usr})
+	} else {
+		doc.Relations = append(doc.Relations, &rm.Relation{Name: "viewer", Rewrite: v})
+	}
+	// the whole: a quick branch next to the slow one, on the same type (computed) and one type up (ttu)
+	quick := &rm.Rewrite{Kind: rm.Computed, Relation: "admin"}
+	doc.Relations = append(doc.Relations, &rm.Relation{Name: "can_view", Rewrite: &rm.Rewrite{Kind: rm.Union, Children: []*rm.Rewrite{quick, {Kind: rm.Computed, Relation: "viewer"}}}})
+	org := &rm.TypeDef{Name: "org", Relations: []*rm.Relation{
+		{Name: "item", Rewrite: this, Restrictions: []rm.Restriction{{Type: "doc"}}},
+		{Name: "admin", Rewrite: this, Restrictions: usr},
+		{Name: "viewer", Rewrite: &rm.Rewrite{Kind: rm.Union, Children: []*rm.Rewrite{{Kind: rm.Computed, Relation: "admin"}, {Kind: rm.TTU, Tupleset: "item", Relation: "viewer"}}}},
+	}}
+	m := &rm.Model{Types: []*rm.TypeDef{{Name: "user"}, group, folder, doc, org}}
+	var tuples []rm.Tuple
+	nf, nd := 3+g.Intn(3), 2+g.Intn(3)
+	u := "user:" + Pick(g, userIDs)
+	for d := 0; d < nd; d++ {
+		do := fmt.Sprintf("doc:d%d", d)
+		tuples = append(tuples, rm.Tuple{Obj: "org:1", Rel: "item", User: do})
+		for f := 0; f < nf; f++ {
+			if g.Chance(0.8) {
+				tuples = append(tuples, rm.Tuple{Obj: do, Rel: "parent", User: fmt.Sprintf("folder:f%d", f)})
+			}
+		}
+		if g.Chance(0.5) {
+			tuples = append(tuples, rm.Tuple{Obj: do, Rel: "admin", User: u})
+		}
+	}
+	for f := 0; f < nf; f++ {
+		fo := fmt.Sprintf("folder:f%d", f)
+		// the subject is a viewer of the LAST folders only: the slow branch finds it late
+		if f >= nf-1-g.Intn(2) {
+			tuples = append(tuples, rm.Tuple{Obj: fo, Rel: "viewer", User: u})
+		}
+		if len(folder.Relations[0].Restrictions) > 1 && g.Chance(0.4) {
+			tuples = append(tuples, rm.Tuple{Obj: fo, Rel: "viewer", User: "group:1#member"})
+		}
+	}
+	if g.Chance(0.5) {
+		tuples = append(tuples, rm.Tuple{Obj: "group:1", Rel: "member", User: u})
+	}
+	if g.Chance(0.8) {
+		tuples = append(tuples, rm.Tuple{Obj: "org:1", Rel: "admin", User: u})
+	}
+	var reqs []Request
+	chk := func(o, r string) { reqs = append(reqs, Request{Kind: "check", Obj: o, Rel: r, User: u}) }
+	for pass := 0; pass < 2; pass++ {
+		chk("org:1", "viewer")
+		for d := 0; d < nd; d++ {
+			chk(fmt.Sprintf("doc:d%d", d), "can_view")
+			chk(fmt.Sprintf("doc:d%d", d), "viewer")
+		}
+	}
+	other := "user:" + Pick(g, userIDs)
+	reqs = append(reqs, Request{Kind: "check", Obj: "org:1", Rel: "viewer", User: other}, Request{Kind: "check", Obj: "doc:d0", Rel: "viewer", User: other})
+	return m, tuples, reqs
+}
+
+// MultiParent is a directed shape: a tuple-to-userset whose tupleset admits three parent types, so
+// that the strategies that open one read per parent type (weight two, recursive) have several reads
+// in flight at once; cancellations and storage errors aimed at the k-th storage operation then land
+// between those reads.
+func (g *G) MultiParent() (*rm.Model, []rm.Tuple, []Request) {
+	this := &rm.Rewrite{Kind: rm.This}
+	usr := []rm.Restriction{{Type: "user"}}
+	m := &rm.Model{Types: []*rm.TypeDef{{Name: "user"}}}
+	parents := []string{"folder", "group", "org"}
+	for _, p := range parents {
+		m.Types = append(m.Types, &rm.TypeDef{Name: p, Relations: []*rm.Relation{{Name: "viewer", Rewrite: this, Restrictions: usr}}})
+	}
+	var pres []rm.Restriction
+	for _, p := range parents {
+		pres = append(pres, rm.Restriction{Type: p})
+	}
+	doc := &rm.TypeDef{Name: "doc", Relations: []*rm.Relation{
+		{Name: "parent", Rewrite: this, Restrictions: pres},
+		{Name: "viewer", Rewrite: &rm.Rewrite{Kind: rm.TTU, Tupleset: "parent", Relation: "viewer"}},
+		{Name: "editor", Rewrite: this, Restrictions: usr},
+		{Name: "can_view", Rewrite: &rm.Rewrite{Kind: rm.Union, Children: []*rm.Rewrite{{Kind: rm.Computed, Relation: "editor"}, {Kind: rm.Computed, Relation: "viewer"}}}},
+	}}
+	m.Types = append(m.Types, doc)
+	var tuples []rm.Tuple
+	for d := 0; d < 3; d++ {
+		for _, p := range parents {
+			for k := 0; k < 1+g.Intn(2); k++ {
+				if g.Chance(0.8) {
+					tuples = append(tuples, rm.Tuple{Obj: fmt.Sprintf("doc:%d", d+1), Rel: "parent", User: fmt.Sprintf("%s:%d", p, 1+g.Intn(3))})
+				}
+			}
+		}
+		if g.Chance(0.3) {
+			tuples = append(tuples, rm.Tuple{Obj: fmt.Sprintf("doc:%d", d+1), Rel: "editor", User: "user:" + Pick(g, userIDs)})
+		}
+	}
+	seen := map[string]bool{}
+	var uniq []rm.Tuple
+	for _, t := range tuples {
+		if !seen[t.Key()] {
+			seen[t.Key()] = true
+			uniq = append(uniq, t)
+		}
+	}
+	tuples = uniq
+	for _, p := range parents {
+		for i := 1; i <= 3; i++ {
+			if g.Chance(0.4) {
+				tuples = append(tuples, rm.Tuple{Obj: fmt.Sprintf("%s:%d", p, i), Rel: "viewer", User: "user:" + Pick(g, userIDs)})
+			}
+		}
+	}
+	var reqs []Request
+	for i := 0; i < 10; i++ {
+		reqs = append(reqs, Request{Kind: "check", Obj: fmt.Sprintf("doc:%d", 1+g.Intn(3)), Rel: Pick(g, []string{"viewer", "viewer", "can_view"}), User: "user:" + Pick(g, userIDs)})
 	}
 	return m, tuples, reqs
 }
